@@ -3,21 +3,35 @@ THEOREMS = [
     "C04_partinv_unfolds", "C04_live_sector_in_exactly_one_set", "C04_partinv_initial",
     "C04_partinv_step", "C04_partinv_reachable", "C04_validate_state_redundant",
     "C04_rejected_call_changes_nothing", "C04_quant_up_idempotent",
+    "C04_deadlineinv_initial", "C04_deadlineinv_step", "C04_deadlineinv_reachable",
+    "C04_deadline_validate_state_redundant",
+    "C04_sector_in_exactly_one_partition", "C04_sector_number_allocated_once",
+    "C04_allocated_only_grows", "C04_assign_deadlines_spec",
 ]
-MODEL_TARGETS = ["Model/Partition", "Model/PartitionInv"]
+MODEL_TARGETS = ["Model/Partition", "Model/PartitionInv", "Model/Deadline", "Model/DeadlineInv"]
 HARNESS = [
     {"bin": "partition", "tag": "partition",
      "quick": {"cases": 1200, "len": 30, "shards": 8},
      "thorough": {"cases": 20000, "len": 45, "shards": 32},
      "search": {"cases": 4000, "len": 40}},
+    {"bin": "deadline", "tag": "deadline",
+     "quick": {"cases": 300, "len": 30, "shards": 8},
+     "thorough": {"cases": 6000, "len": 40, "shards": 32},
+     "search": {"cases": 1500, "len": 35}},
 ]
 TRUSTED_BASE = TRUSTED_BASE_COMMON + [
     "C04 model coq/Model/Partition.v: hand-written transcription of actors/miner/src/{partition_state,expiration_queue,bitfield_queue,quantize}.rs (every Partition operation and the queue operations under it); power_for_sector is abstracted (a sector record carries the raw/QA power the real function returns, computed by the harness with the real code); loops are written as monadic folds (for_each / for_each_while); entries emptied during iter_while_mut are deleted at once instead of after the traversal and reschedule_all_as_faults writes mutated sets at once (same resulting queue and error class; validated by the correspondence check)",
     "C04 harness/src/bin/partition.rs: drives the real fil_actor_miner::Partition with MemoryBlockstore function by function, restoring partition and sector table on Err (the actor's transaction rollback); monitors = Partition::validate_state, the repo's own testing.rs PartitionStateSummary checker, and an independent Rust evaluation of PartInv on the real structure",
 ]
+TRUSTED_BASE += [
+    "C04 model coq/Model/Deadline.v: hand-written transcription of actors/miner/src/deadline_state.rs (partitions array, deadline expiration queue, partitions_posted, early_terminations, sector counts, faulty/live power and daily-fee memos; add_sectors, record_proven_sectors, process_deadline_end, pop_expired_sectors, terminate_sectors, record_faults, declare_faults_recovered, compact_partitions, pop_early_terminations), of deadline_assignment.rs::assign_deadlines and State::allocate_sector_numbers; PoSt proof records / snapshots (dispute machinery) and reschedule_sector_expirations (dead code) are not modelled",
+    "C04 harness/src/bin/deadline.rs: drives the real fil_actor_miner::Deadline, assign_deadlines and State::allocate_sector_numbers function by function; monitors = the repo's testing.rs check_deadline_state_invariants, an independent Rust DeadlineInv (+ DeadlineExpInv), allocation monotonicity",
+]
 ASSUMPTIONS = [
     "op_wf: the sector infos passed to add_sectors / replace_sectors have pairwise distinct numbers, non-negative power/pledge/fee, and replacement infos are numbered like the replaced sectors or fresh (what the miner actor guarantees: sector numbers are allocated once, replace_sectors is called with the same numbers); Partition itself does not check this, and the harness shows both model and code accept such calls and break the invariant",
     "quantisation unit > 0 (QuantSpec of a deadline: the proving period)",
+    "dop_wf: sectors added to a deadline carry numbers not in use in that deadline (sector numbers are allocated once); partition size > 0",
+    "DeadlineExpInv (every partition expiration epoch is registered in the deadline queue) is monitored, not proved; it needs non-decreasing fault expirations (what the actor passes)",
     "sector numbers, epochs, powers are unbounded integers in the model (u64 / i64 / BigInt in Rust; negative AMT keys are modelled as the conversion error)",
 ]
-LEVEL_TEXT = "proof (partition + expiration queue, every operation) + function-level correspondence"
+LEVEL_TEXT = "proof (partition + expiration queue + deadline, every operation) + function-level correspondence"
